@@ -10,5 +10,12 @@ GenNext == Next /\ hist' = Append(hist, obs')
 GenSpec == GenInit /\ [][GenNext]_<<vars, hist>>
 Skel == <<kind, holds, copyh, hascopy, extra, defer, made, cnt, alive>>
 NoGapWalk == \A o \in Objs : cnt[o] <= Max \div 2 - 1 \/ cnt[o] >= Max - 1
+(* narrower exploration for the quick tier: counter pokes, plain-pointer references and deferred *)
+(* handles are not combined with an array copy, and only one object at a time is poked        *)
+High(o) == cnt[o] >= Max - 1
+Narrow == /\ hascopy => \A o \in Objs : extra[o] = 0 /\ defer[o] = 0 /\ ~High(o)
+          /\ Cardinality({o \in Objs : High(o)}) <= 1
+          /\ \A o \in Objs : High(o) => defer[o] = 0
+NarrowGap == NoGapWalk /\ Narrow
 Emit == PrintT(<<"BEHAV", ToJson(hist')>>)
 =============================================================================
